@@ -34,6 +34,9 @@ def gen_ts_graph(rng, mode):
     """Returns a list of build steps [('node', name, vt, meta) | ('edge', s, d, type, meta)] and the graph meta.
     modes: 'consistent' (all types), 'dag' (directed, acyclic), 'dag0' (DAG, window ending at 0), 'wild'."""
     vars_ = rng.sample(['x', 'y', 'z', 'w'], rng.choice([2, 2, 3, 3, 4]))
+    if rng.random() < 0.15:
+        # names whose natural (numeric) and lexicographic orders disagree
+        vars_ = rng.sample(['X2', 'X10', 'X9', 'a10', 'a9'], len(vars_))
     if rng.random() < 0.1:
         vars_[0] = rng.choice(['X 1', 'lag', 'v\n'])
     steps = []
